@@ -704,6 +704,7 @@ func runShutdown(s shutScn) (sig, msg string) {
 	}
 	release := make(chan struct{})
 	var inBusy, served, streamDone int32
+	var busyDoneAt int64 // when the last busy handler returned (wall clock, as measured - not as planned)
 	var streamErr atomic.Value
 	var mu sync.Mutex
 	var conns []Connection
@@ -733,7 +734,9 @@ func runShutdown(s shutScn) (sig, msg string) {
 				copy(w, "done")
 				conn.Writer().Flush()
 			}
-			atomic.AddInt32(&inBusy, -1)
+			if atomic.AddInt32(&inBusy, -1) == 0 {
+				atomic.StoreInt64(&busyDoneAt, time.Now().UnixNano())
+			}
 		} else {
 			if w, err := conn.Writer().Malloc(2); err == nil {
 				copy(w, "ok")
@@ -888,9 +891,9 @@ func runShutdown(s shutScn) (sig, msg string) {
 			doRelease()
 		}()
 	}
+	t0 := time.Now() // before the context is made: the time measured is never shorter than the context's own
 	ctx, cancel := context.WithTimeout(context.Background(), time.Duration(s.DeadlineMS)*time.Millisecond)
 	defer cancel()
-	t0 := time.Now()
 	resc := make(chan error, 1)
 	var lateMu sync.Mutex
 	var late []net.Conn
@@ -950,6 +953,11 @@ func runShutdown(s shutScn) (sig, msg string) {
 	} else {
 		if serr != ctx.Err() {
 			return "shutdown-error", fmt.Sprintf("Shutdown returned %v, want the context's error %v", serr, ctx.Err())
+		}
+		// judged by when the handlers really finished, not by when they were asked to: on a loaded machine the
+		// release itself can be late
+		if done := atomic.LoadInt64(&busyDoneAt); busyEarly && s.Busy > 0 {
+			busyEarly = done != 0 && t0.Add(time.Duration(s.DeadlineMS)*time.Millisecond).Sub(time.Unix(0, done)) > 300*time.Millisecond
 		}
 		if busyEarly {
 			return "deadline-without-busy", fmt.Sprintf("Shutdown hit its %d ms deadline (took %v) although no handler was busy that long (busy=%d release=%d ms)", s.DeadlineMS, took, s.Busy, s.ReleaseMS)
